@@ -158,7 +158,10 @@ class Regex(RegexReader):
         s_initial = self._set_and_get_initial_state_in_enfa()
         s_final = self._set_and_get_final_state_in_enfa()
         self._process_to_enfa(s_initial, s_final)
-        return self._enfa
+        # The automaton given to the caller is not the one kept for accepts
+        enfa = self._enfa
+        self._enfa = None
+        return enfa
 
     def _set_and_get_final_state_in_enfa(self):
         s_final = self._get_next_state_enfa()
@@ -247,10 +250,14 @@ class Regex(RegexReader):
 
     def _process_to_enfa_son(self, s_from, s_to, index_son):
         # pylint: disable=protected-access
-        self.sons[index_son]._counter = self._counter
-        self.sons[index_son]._enfa = self._enfa
-        self.sons[index_son]._process_to_enfa(s_from, s_to)
-        self._counter = self.sons[index_son]._counter
+        son = self.sons[index_son]
+        # The son builds into the automaton of its parent, but keeps its own
+        son_enfa = son._enfa
+        son._counter = self._counter
+        son._enfa = self._enfa
+        son._process_to_enfa(s_from, s_to)
+        self._counter = son._counter
+        son._enfa = son_enfa
 
     def get_tree_str(self, depth: int = 0) -> str:
         """ Get a string representation of the tree behind the regex
